@@ -5,7 +5,7 @@
 here="$(cd "$(dirname "$0")/.." && pwd)"
 d="$(cd "$1" && pwd)"; shift
 wt="/tmp/chk-$(basename "$(dirname "$d")")-$(basename "$d")-$$"
-git -C /repo worktree add --detach "$wt" HEAD >/dev/null 2>&1 || { echo "worktree failed"; exit 2; }
+git -C /repo worktree add --detach "$wt" "${REV:-HEAD}" >/dev/null 2>&1 || { echo "worktree failed"; exit 2; }
 trap 'git -C /repo worktree remove --force "$wt" >/dev/null 2>&1' EXIT
 ( cd /var/tmp && PYTHONPATH="$wt" PYTHONHASHSEED=0 timeout 600 /venv/bin/python -B "$d/demo.py" >"$d/demo_clean.out" 2>&1 ); rc0=$?
 git -C "$wt" apply "$d/patch.diff" || { echo "SEED $d: patch does not apply"; exit 2; }
